@@ -108,6 +108,16 @@ func (a *API) Call(ctx context.Context, tok int) (string, error) {
 	return Result(tok, t.Size), nil
 }
 
+// CallBig is Call with a large argument (a request that spans many chunks).
+func (a *API) CallBig(ctx context.Context, tok int, pad string) (string, error) {
+	t := a.enter(ctx, tok)
+	defer a.leave(t)
+	if pad != Result(tok, len(pad)) {
+		return "", fmt.Errorf("argument corrupted (len %d)", len(pad))
+	}
+	return Result(tok, t.Size), nil
+}
+
 func (a *API) Notify(ctx context.Context, tok int) {
 	t := a.enter(ctx, tok)
 	defer a.leave(t)
@@ -440,6 +450,7 @@ type Proxy struct {
 	Call      func(ctx context.Context, tok int) (string, error)
 	CallRetry func(ctx context.Context, tok int) (string, error) `rpc_method:"T.Call" retry:"true"`
 	AliasCall func(ctx context.Context, tok int) (string, error)
+	CallBig   func(ctx context.Context, tok int, pad string) (string, error)
 	// context-less variants (the library passes a nil context along)
 	CallNoCtx      func(tok int) (string, error)            `rpc_method:"T.Call"`
 	CallRetryNoCtx func(tok int) (string, error)            `rpc_method:"T.Call" retry:"true"`
